@@ -236,8 +236,12 @@ pub fn apply_fault(e: usize, t: &mut Tape, cs: &mut ConfStream) -> Option<Fault>
         30 => {
             // in data state
             let (li, pi, wi) = pick_word(t, cs, &|p, wi| kind_of_id(p.words[wi][9]) == WordKind::Data)?;
-            let id = *t.pick(&[0x1Fu8, 0x29, 0x3F, 0x47, 0x4F, 0x57, 0x5F, 0x00, 0x60, 0xFF]);
+            let mut id = *t.pick(&[0x1Fu8, 0x29, 0x3F, 0x47, 0x4F, 0x57, 0x5F, 0x00, 0x60, 0xFF, 0xF8]);
             let p = &mut cs.stream.links[li].packets[pi];
+            // 0xF8 is a calibration word at the start of the data of a packet only; behind a data word it is an invalid data word id
+            if id == 0xF8 && !(wi > 0 && kind_of_id(p.words[wi - 1][9]) == WordKind::Data) {
+                id = 0x5F;
+            }
             // an id of 0xFF as very last byte of a format-2 payload would read as padding: avoid that corner
             let id = if id == 0xFF { 0xFE } else { id };
             p.words[wi][9] = id;
@@ -536,6 +540,14 @@ fn case(t0: &mut Tape, w: &Worker) -> CaseResult {
         let mut args = mode.args();
         args.push("-E".into());
         args.push(n.to_string());
+        // a custom-checks file that configures what the data has anyway (the RDH version of the stream) changes nothing:
+        // every documented rule must still be detected with it
+        let one_version = cs.stream.links.iter().all(|l| l.packets.iter().all(|p| p.rdh.version == bytes[0]));
+        if ot.chance(1, 4) && one_version {
+            let cfile = w.write("checks.toml", format!("rdh_version = {}\n", bytes[0]).as_bytes());
+            args.push("--checks-toml".into());
+            args.push(cfile.display().to_string());
+        }
         let (spec, o) = case.run(args, stdin);
         if let Some(f) = crash_check(&spec, &o, &bytes, &[0, 1, n as i32]) {
             return Err(f);
